@@ -359,7 +359,10 @@ func propC12Sequential(t *rapid.T) {
 			if first {
 				stopped = true
 				invariant(true, "first Stop")
-				if n := flushLoopGoroutines(); n != 0 {
+				// (Stop returns when the loop has signalled that it is done; the goroutine itself needs a moment more to
+				// leave its frame. A goroutine that really is left behind never goes away, so a generous bound costs
+				// nothing.)
+				if n := flushLoopGoroutines(); n != 0 && !waitFor(func() bool { return flushLoopGoroutines() == 0 }, 10*time.Second) {
 					fail("%d flush goroutine(s) still running after Stop", n)
 				}
 			} else {
@@ -375,7 +378,7 @@ func propC12Sequential(t *rapid.T) {
 	if err := bws.Stop(); err != nil {
 		fail("final Stop: %v", err)
 	}
-	if n := flushLoopGoroutines(); n != 0 {
+	if n := flushLoopGoroutines(); n != 0 && !waitFor(func() bool { return flushLoopGoroutines() == 0 }, 10*time.Second) {
 		fail("%d flush goroutine(s) left after the final Stop", n)
 	}
 	if clk.tickers > 1 {
@@ -973,7 +976,7 @@ func propC12Faults(t *rapid.T) {
 	if clk.channel() != nil {
 		afterFlush("Stop", err, s0)
 	}
-	if n := flushLoopGoroutines(); n > 0 && !waitFor(func() bool { return flushLoopGoroutines() == 0 }, 2*time.Second) {
+	if n := flushLoopGoroutines(); n > 0 && !waitFor(func() bool { return flushLoopGoroutines() == 0 }, 10*time.Second) {
 		fail("%d flush goroutine(s) still running after Stop", n)
 	}
 	_, _, _, wf, sf := sink.snap()
@@ -1007,7 +1010,7 @@ func TestRegressC12(t *testing.T) {
 	if err := bws.Stop(); err != nil || bws.Stop() != nil {
 		t.Fatalf("Stop: %v", err)
 	}
-	if flushLoopGoroutines() != 0 {
+	if flushLoopGoroutines() != 0 && !waitFor(func() bool { return flushLoopGoroutines() == 0 }, 10*time.Second) {
 		t.Fatalf("flush goroutine left running")
 	}
 }
